@@ -270,6 +270,9 @@ func (p *parser) readType() (t Type, err error) {
 			if err != nil {
 				return
 			}
+			if t == nil {
+				return nil, parseError(p.line, p.col, "a list type needs the type of its members")
+			}
 			b, err = p.skipSpace()
 			switch {
 			case err != nil:
